@@ -8,6 +8,7 @@ import (
 	"context"
 	"encoding/xml"
 	"fmt"
+	"io"
 	"reflect"
 	"runtime/debug"
 	"strings"
@@ -54,9 +55,78 @@ func xmlMarshal(v any, indent bool) (data []byte, err error, pan string) {
 // xmlScan runs the streaming scanner over data (served in chunks of at most chunk bytes when
 // chunk>0) and returns the objects in the order they were delivered.
 func xmlScan(data []byte, chunk int) (objs []osm.Object, err error, pan string) {
+	rd := mon.NewReader(data)
+	rd.Chunk = chunk
+	return xmlScanFrom(rd)
+}
+
+// xmlReaderModes names the ways xmlHostileReader serves its data; all of them conform to the
+// io.Reader contract.
+var xmlReaderModes = []string{"whole", "one-byte", "half-of-request", "random-chunks", "data-with-eof", "zero-length-reads"}
+
+// xmlHostileReader is a conforming but unhelpful io.Reader over a byte slice.
+type xmlHostileReader struct {
+	data  []byte
+	pos   int
+	mode  int
+	calls int
+	rnd   uint64
+}
+
+func (r *xmlHostileReader) next() uint64 { // xorshift, deterministic
+	r.rnd ^= r.rnd << 13
+	r.rnd ^= r.rnd >> 7
+	r.rnd ^= r.rnd << 17
+	return r.rnd
+}
+
+func (r *xmlHostileReader) Read(p []byte) (int, error) {
+	r.calls++
+	if len(p) == 0 {
+		return 0, nil
+	}
+	if r.pos >= len(r.data) {
+		return 0, io.EOF
+	}
+	n := len(p)
+	switch r.mode {
+	case 1:
+		n = 1
+	case 2:
+		n = (len(p) + 1) / 2
+	case 3:
+		n = 1 + int(r.next()%uint64(len(p)))
+		if r.next()%3 == 0 && n > 3 {
+			n = 1 + int(r.next()%3)
+		}
+	case 4:
+		if r.calls == 1 {
+			n = 2 // short first read, the rest arrives together with io.EOF
+		}
+	case 5:
+		if r.calls%2 == 0 {
+			return 0, nil // "nothing happened" — allowed, callers must just try again
+		}
+		n = 1 + int(r.next()%5)
+	}
+	if rem := len(r.data) - r.pos; n > rem {
+		n = rem
+	}
+	copy(p, r.data[r.pos:r.pos+n])
+	r.pos += n
+	if r.mode == 4 && r.pos >= len(r.data) {
+		return n, io.EOF // data returned together with io.EOF
+	}
+	return n, nil
+}
+
+// xmlScanHostile runs the scanner over data served in the given mode (index of xmlReaderModes).
+func xmlScanHostile(data []byte, mode int) (objs []osm.Object, err error, pan string) {
+	return xmlScanFrom(&xmlHostileReader{data: data, mode: mode, rnd: 0x9E3779B97F4A7C15 ^ uint64(len(data))})
+}
+
+func xmlScanFrom(rd io.Reader) (objs []osm.Object, err error, pan string) {
 	pan = xmlGuard(func() {
-		rd := mon.NewReader(data)
-		rd.Chunk = chunk
 		s := osmxml.New(context.Background(), rd)
 		defer s.Close()
 		for s.Scan() {
